@@ -295,7 +295,7 @@ func TestC14(t *testing.T) {
 	// afterwards, and a second conversion means the same
 	gen.Prop(t, "allow-list-histories-on-one-options-value", gen.N(2500, 150000), func(t *rapid.T) {
 		s := gen.NewStream(rapid.Uint64().Draw(t, "content"), "c14hist")
-		n := rapid.IntRange(3, 7).Draw(t, "entries")
+		n := rapid.SampledFrom([]int{3, 4, 5, 7, 8, 9, 10, 12, 17}).Draw(t, "entries")
 		list := make([][]byte, n)
 		for k := range list {
 			list[k] = s.Bytes(48)
